@@ -39,7 +39,9 @@ check("C08", "exploration",
       "and compares length, every in-range element, every out-of-range index from -2 to len+2, "
       "equality/ordering/iteration/std functions and manifestation observed on the real evaluator "
       "(rel and chk builds) with a Python list built alongside; records which internal "
-      "representations were actually exercised.",
+      "representations were actually exercised; steps up to the documented bound 2^31 - 1 in composed slices, and 49 library "
+      "consumers (incl. membership / count / find probes with values that are not elements) applied to the view and to the "
+      "plainly written array must agree.",
       "Python list semantics as the model of a plainly constructed array; representation names are "
       "read from the Debug output of the array value (no hook).",
       "runtime monitoring: model-based differential oracle (Python list) over generated view compositions, rel + overflow-checked builds",
@@ -114,7 +116,9 @@ check("C01", "exploration",
       "and full parenthesisation and five embedding positions (snippet, imported file, import "
       "expression, ext-code variable, TLA function body) and compares value / error-ness with a "
       "reference evaluator written from the specification that runs on the generator's AST; 400 inheritance "
-      "chains that apply the same object value twice are part of the table. Experimental-syntax clause: ~1000 "
+      "chains that apply the same object value twice are part of the table, and so are 547 programs over strings held as ropes "
+      "(concatenations of >= 100 bytes, associated differently; equal, differing in one character, prefix of each other, ASCII "
+      "and not) under every comparison, concatenation, index, slice, key lookup and length. Experimental-syntax clause: ~1000 "
       "(sugared, documented desugaring) program pairs are run on a worker built with exp-destruct, "
       "exp-null-coaelse and exp-object-iteration and must agree; the desugared program must also give the same "
       "outcome on the standard build.",
@@ -128,7 +132,8 @@ check("C03", "exploration",
       "error / failing-assert / divergence bombs in positions the reference evaluator marks unneeded, "
       "collects the trace events through a TracePrinter installed in the worker and checks outcome == "
       "reference and observed label count <= the reference's call-by-need bound (memo per local, "
-      "argument, array element, and object field per access path); plus hand-built sharing shapes and "
+      "argument, array element, and object field per access path); plus hand-built sharing shapes (incl. one object "
+      "literal with locals as a layer of up to 300 objects whose fields are read between two reads of the first one) and "
       "lazy-vs-tailstrict pairs.",
       "Label counts are compared only when the outcome is a value; evaluating less than the bound is "
       "never a violation.",
@@ -192,7 +197,8 @@ check("C10", "exploration",
       "length 0..3 over an 11-element mixed alphabet (exhaustive to 2), random arrays of length 4..8 with duplicates, "
       "tagged objects (stability), key / predicate / fold / map functions defined twice (Jsonnet source + Python "
       "callable, including partial and type-changing ones), and every pair of subsets of a 5-element universe under "
-      "3 key functions; compares value / error-ness with ports of the documented definitions and checks the sort "
+      "3 key functions, and arrays / sets of 100-160 character strings held as differently shaped ropes (equal or differing in "
+      "one character); compares value / error-ness with ports of the documented definitions and checks the sort "
       "law (ordered, stable permutation) on the real output.",
       "The reference ports abstain on undocumented corners (non-set inputs of set functions, fractional ranges "
       "or indexes, folds over strings). Error identity is compared as error-vs-value, not by message.",
@@ -205,7 +211,8 @@ check("C11", "exploration",
       "length, overlapping and repeating patterns, code points at every UTF-8 / UTF-16 boundary, numeric strings "
       "around 2^53 and digit validity, byte arrays with invalid UTF-8, malformed base64, wrong-type arguments, and "
       "compares value / error-ness with ports of the documented definitions (hashlib / base64 / codecs for the "
-      "codecs); evaluates inverse laws (encode/decode, split/join, chars, parseJson/parseYaml of manifestJson) on "
+      "codecs); long strings are written as concatenations with random piece boundaries and association (ropes), alone and in "
+      "pairs that differ in one character; evaluates inverse laws (encode/decode, split/join, chars, parseJson/parseYaml of manifestJson) on "
       "the real outputs.",
       "The ports abstain where the published implementations disagree: empty split delimiter, base64 of "
       "non-Latin-1 strings, decodeUTF8 of invalid bytes, parseInt beyond 2^53. Error identity is error-vs-value.",
@@ -257,8 +264,9 @@ check("C15", "exploration",
       "DESIGN.md §3 C15")
 
 check("C16", "exploration",
-      "Evaluates each program (45 templates with randomised similar identifiers: suggestions, several failing places, "
-      "duplicate definitions, enumeration of up to 40 fields through every listing / manifesting function, traces, stack "
+      "Evaluates each program (57 templates with randomised similar identifiers: suggestions, several failing places, "
+      "equality between separately built objects whose fields all fail or trace, imports of files that fail at evaluation / parsing / "
+      "decoding repeated on one state, duplicate definitions, enumeration of up to 40 fields through every listing / manifesting function, traces, stack "
       "limits; plus random generated programs) in two fresh processes (one with a shuffled pre-interned string pool), in a "
       "long-lived process after a random history of values, errors, stack overflows and pool changes (long-lived state, fresh "
       "state, and again), and a sample through three runs of the executable; requires byte-identical manifested text or full "
